@@ -184,15 +184,14 @@ Section Body.
       if eval c e then
         let '(its, r, e1) := bexec f body e in
         match r with
-        | RNormal =>
-            if task then (IIter id :: its ++ [IIterEnd id IFall], RYield true, e1)
+        | RNormal | RContinue =>
+            (* the common end of an iteration (since fix a1ebdfd the ContinueException handler falls
+               through to it, as the for loop's does): the suspension point *)
+            let k := match r with RContinue => IContinue | _ => IFall end in
+            if task then (IIter id :: its ++ [IIterEnd id k], RYield true, e1)
             else
               let '(its2, r2, e2) := while_iter f id c body e1 in
-              (IIter id :: its ++ [IIterEnd id IFall; IBg] ++ its2, r2, e2)
-        | RContinue =>
-            (* catch (ContinueException) { continue; } : straight to the next test of the condition *)
-            let '(its2, r2, e2) := while_iter f id c body e1 in
-            (IIter id :: its ++ [IIterEnd id IContinue] ++ its2, r2, e2)
+              (IIter id :: its ++ [IIterEnd id k; IBg] ++ its2, r2, e2)
         | RYield true => (IIter id :: its ++ [IIterEnd id IYieldInner], RYield true, e1)
         | RYield false => (IIter id :: its ++ [IIterEnd id IYieldExplicit], RYield true, e1)
         | RBreak => (IIter id :: its ++ [IIterEnd id IBreak], RNormal, e1)
@@ -247,17 +246,6 @@ Section Body.
     | BIf _ t el => can_continue t || match el with Some s' => can_continue s' | None => false end
     | BBlock _ body => existsb can_continue body
     | _ => false
-    end.
-
-  (* no while loop whose iteration can end by continue *)
-  Fixpoint wc_free (s : bstmt) : bool :=
-    match s with
-    | BIf _ t el => wc_free t && match el with Some s' => wc_free s' | None => true end
-    | BBlock _ body => forallb wc_free body
-    | BFor _ _ _ body => wc_free body
-    | BWhile _ _ body => negb (can_continue body) && wc_free body
-    | BCall _ body => forallb wc_free body
-    | _ => true
     end.
 
   (* an iteration boundary: the end of an iteration that does not leave the loop *)
